@@ -13,6 +13,8 @@ pub struct Trace {
     pub n: usize,
     /// when set, events are kept in memory (the crash driver inserts crash reads between them before writing)
     pub buf: Option<Vec<Value>>,
+    /// pure in-memory drivers (no engine that can abort the process) need not flush per event
+    pub lazy: bool,
 }
 
 impl Trace {
@@ -20,13 +22,13 @@ impl Trace {
         if let Some(p) = path.parent() {
             std::fs::create_dir_all(p).ok();
         }
-        Self { w: BufWriter::new(File::create(path).expect("create trace")), n: 0, buf: None }
+        Self { w: BufWriter::new(File::create(path).expect("create trace")), n: 0, buf: None, lazy: false }
     }
     pub fn ev(&mut self, v: Value) {
         if let Some(b) = self.buf.as_mut() { b.push(v); self.n += 1; return; }
         serde_json::to_writer(&mut self.w, &v).unwrap();
         self.w.write_all(b"\n").unwrap();
-        self.w.flush().unwrap(); // the engine may abort the process: every complete event must already be on disk
+        if !self.lazy { self.w.flush().unwrap(); } // the engine may abort the process: every complete event must already be on disk
         self.n += 1;
     }
     pub fn finish(mut self) -> usize {
